@@ -44,7 +44,7 @@ class C14(Prop):
             'drawn: symmetric allreduce / allreduce_bucketed / broadcast on simulated ranks return bit-identical results to their dense forms '
             'and send n(n+1)/2 elements. Rejection part ("reject"): drawn shapes of rank 0-4 that are not square 2-d (wide, tall, 1-d, 3-d, '
             '0-d) with symmetric=True in a group of size > 1 must raise NonSquareTensorError from all three entry points with no collective in '
-            'the trace and nothing queued in a bucket. One "pack" case covers all 12 dtype/layout combinations of one n (inner_evaluations). '
+            'the trace and nothing queued in a bucket - also when the bucket already holds a valid tensor and the capacity or dtype is such that queueing the invalid one would first communicate that bucket (the held tensor must still come back right after the flush). One "pack" case covers all 12 dtype/layout combinations of one n (inner_evaluations). '
             'Non-trivial: n >= 3, or a non-contiguous layout (always present), or a rejected shape.')
     assumptions = ['in a group of one nothing is communicated and the input is returned unchanged (rejection is not required there)',
                    'vkit/simdist for the communication part']
@@ -67,6 +67,7 @@ class C14(Prop):
                           st.sampled_from([[2, 2, 1], [1, 3, 3], [3, 3, 3], [1, 2], [2, 1], [1, 1, 1]]))
         reject = st.fixed_dictionaries({
             'kind': st.just('reject'), 'W': st.sampled_from([2, 3]), 'shape': shape, 'dtype': st.sampled_from(DTYPES),
+            'prefill': st.sampled_from(['none', 'overflow', 'dtype', 'fits']),
             'schedule': st.lists(st.integers(0, 31), max_size=10)})
         return st.one_of(comm, reject)
 
@@ -181,9 +182,19 @@ class C14(Prop):
         dtype = getattr(torch, case['dtype'])
         shape = case['shape']
 
+        pre = case.get('prefill', 'none')
+
         def prog(rank):
-            comm = TorchDistributedCommunicator(25.0)
+            # optionally the bucket already holds a valid tensor, and the capacity / dtype are such that queueing the invalid
+            # tensor would first have to communicate that bucket: rejection must still come before any communication
+            cap_mb = 25.0 if pre != 'overflow' else (8 + 0.5) / 1e6
+            comm = TorchDistributedCommunicator(cap_mb)
             outcomes = {}
+            held = None
+            if pre != 'none':
+                simdist.set_phase('prefill')
+                held = comm.allreduce_bucketed(torch.full((2,), float(rank + 1), dtype=torch.float64 if pre == 'dtype' else dtype))
+            simdist.set_phase('reject')
             for op in ('allreduce', 'allreduce_bucketed', 'broadcast'):
                 t = torch.ones(shape, dtype=dtype)
                 try:
@@ -198,17 +209,23 @@ class C14(Prop):
                     outcomes[op] = f'{type(e).__name__}: {e}'
             simdist.set_phase('flush')
             comm.flush_allreduce_buckets()
+            if held is not None:
+                v = held.wait() if not isinstance(held, torch.Tensor) else held
+                outcomes['_held'] = v.tolist()
             return outcomes
 
         res = simdist.Sim(W, case['schedule']).run(prog, timeout=60)
         if res.timed_out:
             raise RuntimeError('simulation timed out (harness)')
         wide = len(shape) == 2 and shape[0] < shape[1]
-        labels = {'kind': 'reject', 'rank_of_shape': len(shape), 'wide': wide}
+        labels = {'kind': 'reject', 'rank_of_shape': len(shape), 'wide': wide, 'prefill': pre}
+        exp_held = [float(sum(range(1, W + 1)))] * 2
         for rank in range(W):
-            evs = [e for e in res.trace[rank] if e['kind'] != 'new_group']
+            evs = [e for e in res.trace[rank] if e['kind'] != 'new_group' and e.get('phase') != 'flush']
             o = res.results[rank]
             if o is not None:
+                if '_held' in o and o.pop('_held') != exp_held:
+                    return violation(f'rank {rank}: the valid tensor queued before the rejected call came back wrong after the flush', 'prefill-corrupted', labels=labels)
                 for op, what in o.items():
                     if what != 'rejected':
                         return violation(f'rank {rank}: {op}(symmetric=True) of a tensor of shape {shape} was not rejected with NonSquareTensorError: {what}; '
